@@ -106,7 +106,9 @@ def gen_early_clock(r, P, same_day_ok=True):
 
 def make_scenario(streams, quarantine=()):
     r = streams('shape')
-    n = r.choice([1, 2, 2, 3, 3, 4, 4, 5, 6, 7, 8, 10])
+    from . import core as _core
+    deep = _core.TIER == 'thorough'
+    n = r.choice([1, 2, 2, 3, 3, 4, 4, 5, 6, 7, 8, 10] + ([12, 14] if deep else []))
     direction = 'fwd' if r.random() < 0.62 else 'bwd'
     klass = 'ok'
     x = r.random()
@@ -130,7 +132,7 @@ def make_scenario(streams, quarantine=()):
         name = f't{i}'
         parent = None
         if i > 0 and r.random() < 0.45:
-            cands = [t['name'] for t in tasks if depth[t['name']] < 3]
+            cands = [t['name'] for t in tasks if depth[t['name']] < (4 if deep else 3)]
             parent = r.choice(cands)
         depth[name] = depth[parent] + 1 if parent else 0
         kw = {'name': f'N{i}'}
